@@ -119,6 +119,13 @@ func backwardSlice(fn *ssa.Function, dataOnly bool, roots ...ssa.Value) map[ssa.
 		}
 		// element/field reads of a value whose root has stores
 		switch v := v.(type) {
+		case *ssa.Slice, *ssa.Alloc:
+			// a slice of / pointer to an object carries whatever was stored into it
+			for _, st := range storesByRoot[memRoot(v)] {
+				push(st.Val)
+				push(st.Addr)
+				addControl(st.Block())
+			}
 		case *ssa.IndexAddr:
 			for _, st := range storesByRoot[memRoot(v)] {
 				push(st.Val)
